@@ -28,7 +28,7 @@ const METHODS_ONLY = cfg(METHODS)
 const NOTHING = cfg([])
 const RENAMED = cfg([{ src: 'plusOperator', dst: 'plus', operator: true }, { src: 'tplOperator', dst: 'tpl', operator: true }].concat(METHODS.map((m) => Object.assign({}, m, { dst: 'str_' + m.src }))))
 // several methods share one hook (as dd-trace does for trim/trimStart/trimEnd); the later ones must still be found
-const SHARED_DST = cfg([OPS.plus, OPS.tpl].concat(METHODS.map((m, i) => Object.assign({}, m, { dst: i % 2 ? 'strOpA' : 'strOpB' }))))
+const SHARED_DST = cfg([OPS.plus, OPS.tpl].concat(METHODS.map((m, i) => Object.assign({}, m, { dst: i < 3 ? 'strOpA' : 'strOpB' }))))
 const COMMENTS = Object.assign({}, FULL, { comments: true })
 const DEBUG = Object.assign({}, FULL, { telemetryVerbosity: 'DEBUG' })
 
